@@ -56,6 +56,19 @@ def arm(name, header, sig_params, post, loop_fn=None, rewrites=(), obligation=""
               ghost=[("@entry", "", "proof { broadcast use vstd::seq::group_seq_axioms; reveal_with_fuel(leak, 2); reveal_with_fuel(leaks, 2); }")])
 
 
+def ret_expr_only(mt):
+    """the function is reduced to the expression that initialises `ret_ty:` in the `hir::Fn { .. }` it returns (everything else — parameters, bounds, body — is dropped or covered by other fragments)"""
+    from vlib.rsitems import mask, AnchorLost
+    text = mt.group(0)
+    m = mask(text)
+    h = re.search(r"\n\s*ret_ty: ret_ty\b", m)
+    e = re.search(r",\s*\n\s*body: self\.resolve_expr\(", m)
+    if not h or not e or e.start() < h.end():
+        raise AnchorLost("resolve_fn: `ret_ty: ret_ty.. ,` followed by `body: self.resolve_expr(` not found in the returned hir::Fn")
+    expr = text[h.start():e.start()].split("ret_ty:", 1)[1].strip()
+    return ("pub fn resolve_fn_ret(&mut self, ret_ty: &Option<ast::TypeExpr>, tparams: &TParamSet, ctx: &ResolutionContext) -> Option<hir::TypeExpr> {\n    " + expr + "\n}")
+
+
 def PARAM_LOOPS(header, body):
     if "__pi <" in header:
         ids = "param_ids" if "param_ids" in body else None
@@ -220,6 +233,11 @@ UNIT = Unit(
            obligation="every parameter gets a binder of its own (a fresh id, also when two parameters share a name) and is entered into the environment in order",
            contract="ensures params_bound(params@, r.0.0@, r.1@), params_import_checked(r.1@),",
            loop_fn=lambda k, header, kw, body: PARAM_LOOPS(header, body)),
+        Fn(file=N, name="resolve_fn", container=NR, as_method_of=NR, rename="resolve_fn_ret", ret="r", rules=["attrs", "opt_map"],
+           pre_rewrites=[(re.compile(r"(?s)\A.*\Z"), ret_expr_only, 1)],
+           rewrites=[(re.compile(r"\b(\w+)\.into\(\)"), r"type_expr_into(\1)", "*")],      # the plain conversion (no import gate), should the code use it
+           obligation="the declared result type of a function goes through the import-checking lowering",
+           contract="ensures (r is Some) == (ret_ty is Some), r matches Some(t) ==> import_checked(t),"),
         Fn(file=N, name="resolve_pat", container=NR, as_method_of=NR, rename="resolve_ident_pat", ret="r",
            cut_from="ast::Pat::PVar { name, astptr } => {", cut_inside=True, cut_before="@block-end", cut_tail="",
            sig="pub fn resolve_ident_pat(&mut self, name: &ast::AstIdent, astptr: &ast::MySyntaxNodePtr, env: &mut ResolveLocalEnv, ctx: &ResolutionContext, hir_table: &mut HirTable) -> hir::PatId",
